@@ -292,7 +292,9 @@ class MetricPickleReceiver(MetricReceiver, Int32StringReceiver):
         try:
           metric = metric.encode('utf-8')
         except AttributeError:  # not a string at all
-          log.listener('Error decoding pickle: invalid metric name %r' % (metric,))
+          # (no repr() of it: a deeply nested object makes repr() itself raise)
+          log.listener('Error decoding pickle: invalid metric name of type %s' %
+                       type(metric).__name__)
           continue
 
       self.metricReceived(metric, datapoint)
